@@ -49,6 +49,7 @@ type vSpec struct {
 	ReqPool string   `json:"reqPool"`
 	Dep     bool     `json:"dep"`
 	Legacy  string   `json:"legacy"`
+	Bad     bool     `json:"bad"`
 }
 
 type vAct struct {
@@ -140,6 +141,9 @@ func vMakeService(s string, raw json.RawMessage) *v1.Service {
 	}
 	if sp.Legacy != "" {
 		ann[DeprecatedAnnotationIPAllocateFromPool] = sp.Legacy
+	}
+	if sp.Bad {
+		svc.Spec.LoadBalancerIP = "192.168.1.256"
 	}
 	if len(ann) > 0 {
 		svc.Annotations = ann
